@@ -53,9 +53,9 @@ package verifh
 //   no-tree                  no tree although the root has relationships
 
 import (
-	"errors"
 	"context"
 	"encoding/json"
+	"errors"
 	"fmt"
 	"math/rand/v2"
 	"net/http"
